@@ -10,8 +10,12 @@ use serde_json::{json, Value};
 use std::path::{Path, PathBuf};
 
 pub const KNOWN_PATH: &str = "/verif/known_findings.json";
-pub const EVIDENCE_DIR: &str = "/verif/evidence";
-pub const FINDINGS_DIR: &str = "/verif/findings";
+pub fn evidence_dir() -> String {
+    std::env::var("SEED_VERIF_EVIDENCE_DIR").unwrap_or_else(|_| "/verif/evidence".to_string())
+}
+pub fn findings_dir() -> String {
+    std::env::var("SEED_VERIF_FINDINGS_DIR").unwrap_or_else(|_| "/verif/findings".to_string())
+}
 
 fn machinery(msg: &str) -> i32 {
     eprintln!("MACHINERY-FAILURE: {}", msg);
@@ -35,7 +39,7 @@ pub fn run_check(id: &str, tier: Tier) -> i32 {
         Err(e) => return machinery(&e),
     };
     // reference model must reproduce the repository's own expected outputs
-    let (ok, total, fails) = repo_tests::selfcheck("/repo/tests/stdout", false);
+    let (ok, total, fails) = repo_tests::selfcheck(&format!("{}/tests/stdout", subject::repo()), false);
     if ok != total || total == 0 {
         return machinery(&format!(
             "reference self-validation {}/{}: {}",
@@ -153,7 +157,7 @@ fn finish(ctx: &mut Ctx) -> Result<i32, MachineryError> {
         let cli = confirm(ctx, v)?;
         ctx.cli_confirmations += 2;
         let h = h64(&(&v.case.src, &v.clause, v.case.tag, &v.case.cli_path));
-        let dir = PathBuf::from(format!("{}/{}/{:016x}", FINDINGS_DIR, ctx.id, h));
+        let dir = PathBuf::from(format!("{}/{}/{:016x}", findings_dir(), ctx.id, h));
         std::fs::create_dir_all(&dir).map_err(|e| MachineryError(e.to_string()))?;
         std::fs::write(dir.join("case.sd"), &v.case.src).map_err(|e| MachineryError(e.to_string()))?;
         let j = json!({
@@ -236,8 +240,8 @@ fn write_evidence(ctx: &Ctx) -> Result<(), MachineryError> {
         "wall_s": ctx.start.elapsed().as_secs_f64(),
         "violations": ctx.violation_count,
     });
-    std::fs::create_dir_all(EVIDENCE_DIR).map_err(|e| MachineryError(e.to_string()))?;
-    let p = Path::new(EVIDENCE_DIR).join(format!("{}.json", ctx.id));
+    std::fs::create_dir_all(evidence_dir()).map_err(|e| MachineryError(e.to_string()))?;
+    let p = Path::new(&evidence_dir()).join(format!("{}.json", ctx.id));
     std::fs::write(&p, serde_json::to_string_pretty(&ev).unwrap())
         .map_err(|e| MachineryError(e.to_string()))?;
     Ok(())
